@@ -369,6 +369,33 @@ def build():
         add(run_fn(f'integral<{R}>(cmap, map)', 'integral', msel(rf'8integralIaLm{R}ElE'), G, R, same_dims, post_integral,
                    'integral(): guards the empty tensor', has_self=False))
 
+    # -------------------------------------------------------------------------------- integral.h: VALUES of the rank-2 table (ispec.py)
+    import ispec
+    for tag, mang, M in (('int8', 'a', 128), ('int32', 'i', 2 ** 31)):
+        add(run_fn(f'integral_t<2>::get_values_{tag}', 'get', msel(rf'integral_tILm2EE3getI{mang}lE'), G, 2, ispec.setup_values(M), ispec.post_values,
+                   'summed-area table, rank 2: defining recurrence at a ghost cell, no overflow of the row additions', invariants={1: ispec.inv_values}, has_self=False))
+
+    # -------------------------------------------------------------------------------- algorithm.h: detail::copy, ranks 1..3
+    A = INC + 'algorithm.h'
+    for R in (1, 2, 3):
+        def setup_copy(wp):
+            d0 = wp.dim('tensor', 0)
+            for k in ('isrc', 'idst'):           # the asserts in detail::copy (upper bound) and in get_index0 (lower bound)
+                wp.assume(f'(and (<= 0 {wp.env[k].t}) (< {wp.env[k].t} {d0}))')
+
+        def post_copy(wp, rv, R=R):
+            P = wp.P('tensor')
+            isrc, idst = wp.env['isrc'].t, wp.env['idst'].t
+            dst, src, ln = wp.env['ghost.dst'].t, wp.env['ghost.src'].t, wp.env['ghost.len'].t
+            return [('copies: exactly one block copy', f'(= {wp.env["ghost.rows"].t} 1)'),
+                    ('copies: the destination is row idst: offset idst * P_1', f'(= {dst} {times(idst, P[1])})'),
+                    ('copies: the source is row isrc: offset isrc * P_1', f'(= {src} {times(isrc, P[1])})'),
+                    ('copies: one whole row (P_1 elements)', f'(= {ln} {P[1]})'),
+                    ('copies: both rows lie inside the buffer', f'(and (<= 0 {dst}) (<= (+ {dst} {ln}) {P[0]}) (<= 0 {src}) (<= (+ {src} {ln}) {P[0]}))'),
+                    ('copies: within the tensor\'s own buffer', 'true' if wp.copy_bufs == ('tensor', 'tensor') else 'false')]
+        add(run_fn(f'detail::copy<{R}>', 'copy', msel(rf'6detail4copyINS_8tensor_tINS_23tensor_marray_storage_tEdLm{R}E'), A, R, setup_copy, post_copy,
+                   'remove_if helper: sub-tensor isrc of the first axis is copied onto sub-tensor idst', has_self=False))
+
     # -------------------------------------------------------------------------------- tensor.h: reshape
     for R, N in RESHAPES:
         for j in reshape_cases(N):
